@@ -332,7 +332,7 @@ def exhaustive_cases(tier):
     if tier == 'quick':
         plans = [(full, 2, INITS), (core, 3, INITS[:4])]
     else:
-        plans = [(full, 2, INITS), (full, 3, INITS[2:4]), (core, 3, INITS), (core, 4, INITS[2:3])]
+        plans = [(full, 2, INITS), (full, 3, INITS[2:3]), (core, 3, INITS), (core, 4, INITS[2:3])]
     notes = []
     for ops, depth, inits in plans:
         notes.append('all %d^%d operation sequences (every prefix observed) from %d initial lists'
@@ -402,15 +402,17 @@ def rand_init(rng):
 
 def random_cases(prop, tier):
     rng = rng_for(prop, KIND)
-    n = 3000 if tier == 'quick' else 100000
+    n = 3000 if tier == 'quick' else 60000
     for _ in range(n):
         yield (rand_init(rng), tuple(rand_op(rng) for _ in range(rng.randint(1, 30))))
 
 
 def isspace_cases(tier):
     """single-code-point strings: does __coerce treat them as whitespace?"""
-    hi = 0x3100 if tier == 'quick' else 0x110000
-    for cp in range(hi):
+    cps = list(range(0x3100))
+    if tier != 'quick':
+        cps += list(range(0x3100, 0x10000)) + list(range(0x10000, 0x110000, 97)) + [0x10FFFF]
+    for cp in cps:
         yield ((), (('append', S(chr(cp))),))
     for s in (' \n', '\t ', ' a', 'a ', ' {a}', '{a} ', '\x1c\x1f', ' \x00'):
         yield ((), (('append', S(s)), ('remove', S(s))))
@@ -488,7 +490,7 @@ def run(prop, tier):
     r.notes += notes
     r.notes.append('random sequences of 1..30 operations with random groups/strings/indices in -6..6; '
                    'single-code-point str.isspace probe up to %s'
-                   % ('U+30FF' if tier == 'quick' else 'U+10FFFF'))
+                   % ('U+30FF' if tier == 'quick' else 'U+FFFF and every 97th code point up to U+10FFFF'))
     r.notes.append('compared after every step: outcome class/value, str, len, element strings, '
                    '.all element kinds and strings; owner print checked on the implementation')
     r.notes.append('wall %.1fs' % (time.time() - t0))
